@@ -41,6 +41,10 @@ def parseOp (ws : List String) : Option Op :=
   | ["bind", s, _] => some (.ext (nat s))
   | ["sub", s] => some (.ext (nat s))
   | ["tick", t] => some (.tick (nat t))
+  -- handler level: `tick <secs> <sid>...` - while the time passed the subscription reporter gave up on
+  -- a report and dropped these sessions (see `step`)
+  | "tick" :: t :: _ => some (.tick (nat t))
+  | ["sdrop", s] => some (.sdrop (nat s))
   | ["poll"] => some .poll
   | ["flush"] => some .flush
   | ["restart"] => some .restart
@@ -200,6 +204,9 @@ structure OSt where
   cmtX : List (String × String) := []
   /-- bindings / subscriptions with the incarnation of the fabric they were made for -/
   xBind : List (String × Nat) := []
+  /-- the committed group key maps (`K:<fab>` entries of `cmtX`, they live in the fabric blobs) by the
+  number of store mutations, newest first: a `crash n` comes up with those of mutation `n` -/
+  histX : List (Nat × List (String × String)) := []
 deriving Inhabited
 
 def lookupD (l : List (Nat × α)) (k : Nat) (d : α) : α :=
@@ -252,7 +259,7 @@ def fabEntry (sec : String) (fab : Nat) : String :=
 /-- fabric index of an entry `<fab>.<x>` -/
 def entryFab (e : String) : Nat := nat ((e.splitOn ".").headD "0")
 
-def oracle (st : OSt) (op : Op) (v : View) (kind : String) : OSt × List String :=
+def oracle (st : OSt) (op : Op) (v : View) (kind : String) (dropped : List Nat := []) : OSt × List String :=
   let p := st.prev
   let okS := isOk v.status
   let opSess : Option SessV := (isSessOp op).bind (fun sid => p.sess.find? (fun s => s.id = sid))
@@ -322,7 +329,9 @@ def oracle (st : OSt) (op : Op) (v : View) (kind : String) : OSt × List String 
   let v07c := if restartLike op || removed.isEmpty then [] else
     -- (sessions of fabrics that are THERE before the op; a session left over from a fabric that went
     -- away earlier - e.g. the expired own session of a RemoveFabric - belongs to no other fabric)
-    (p.sess.filter (fun s => s.kind = "c" && !removed.contains s.fab && p.fabs.any (fun f => f.idx = s.fab))).filterMap (fun s =>
+    -- (nor is a session judged that the subscription reporter dropped meanwhile)
+    (p.sess.filter (fun s => s.kind = "c" && !removed.contains s.fab && p.fabs.any (fun f => f.idx = s.fab)
+        && !dropped.contains s.id)).filterMap (fun s =>
       match v.sess.find? (fun t => t.id = s.id) with
       | some t => if t.expired ≠ s.expired then some s!"C07 other-fabric-session: session {s.id} of fabric {s.fab} changed while fabric {removed} went away" else none
       | none => some s!"C07 other-fabric-session: session {s.id} of fabric {s.fab} disappeared while fabric {removed} went away")
@@ -474,6 +483,25 @@ def oracle (st : OSt) (op : Op) (v : View) (kind : String) : OSt × List String 
   let cx4 := if removed.isEmpty || restartLike op then cx3 else
     setS (cx3.filter (fun e => !(removed.any (fun i => e.1 == s!"K:{i}"))))
       "B" (";".intercalate ((items (getS cx3 "B" "")).filter (fun e => !removed.contains (entryFab e))))
+  let kOnly (l : List (String × String)) : List (String × String) := l.filter (fun e => e.1.startsWith "K:")
+  -- the group key maps a restart may come up with: the committed ones; after `crash n` those of
+  -- mutation `n` (inside the writes of one op: that op's as well)
+  let (kWants, histX0) : List (List (String × String)) × List (Nat × List (String × String)) :=
+    match op with
+    | .crash n =>
+      let le := st.histX.filter (fun e => e.1 ≤ n)
+      let gt := (st.histX.filter (fun e => e.1 > n)).reverse
+      let base : List (String × String) := match le with
+        | e :: _ => e.2
+        | [] => []
+      let exact : Bool := match le with
+        | e :: _ => e.1 = n
+        | [] => n = 0
+      ((if exact then [base] else match gt with
+          | e :: _ => [base, e.2]
+          | [] => [base]), le)
+    | .coldreset | .fabrecover _ => ([[]], [])
+    | _ => ([kOnly cx4], st.histX)
   let vx2 : List String :=
     if !hasX then []
     else match op with
@@ -488,16 +516,23 @@ def oracle (st : OSt) (op : Op) (v : View) (kind : String) : OSt × List String 
           let want := if name == "B" then ";".intercalate ((items want0).filter (fun e => present (entryFab e))) else want0
           if xm name ≠ want then some s!"C11 restart-mismatch: after the restart {name}[{xm name}] but acknowledged [{want}]" else none)) ++
         (v.fabs.filterMap (fun f =>
-          let want := getS cx4 s!"K:{f.idx}" "-"
-          if fabEntry (xm "K") f.idx ≠ want then
-            some s!"C11 restart-mismatch: after the restart the group key map of fabric {f.idx} is [{fabEntry (xm "K") f.idx}] but committed [{want}]"
+          let wants := kWants.map (fun w => getS w s!"K:{f.idx}" "-")
+          if !wants.contains (fabEntry (xm "K") f.idx) then
+            some s!"C11 restart-mismatch: after the restart the group key map of fabric {f.idx} is [{fabEntry (xm "K") f.idx}] but committed {wants}"
           else none))
       | _ => []
   let cx5 := match op with
     | .coldreset | .fabrecover _ => []
     | .restart | .crash _ | .corrupt =>
-      if hasX then setS cx4 "B" (";".intercalate ((items (getS cx4 "B" "")).filter (fun e => present (entryFab e)))) else cx4
+      if hasX then
+        let c := setS cx4 "B" (";".intercalate ((items (getS cx4 "B" "")).filter (fun e => present (entryFab e))))
+        -- after a crash the key maps that came up are the committed ones from here on
+        match op with
+        | .crash _ => (c.filter (fun e => !e.1.startsWith "K:")) ++ v.fabs.map (fun f => (s!"K:{f.idx}", fabEntry (xm "K") f.idx))
+        | _ => c
+      else cx4
     | _ => cx4
+  let histX := (v.k, kOnly cx5) :: histX0
   -- C08: the deferred group key map is undone with the fail-safe
   let vx3 : List String :=
     if !hasX || !ended || restartLike op || isComplete then []
@@ -530,7 +565,7 @@ def oracle (st : OSt) (op : Op) (v : View) (kind : String) : OSt × List String 
   ({ prev := v, inc := inc, sessBind := sessBind, resBind := resBind, kvResBind := kvResBind,
      cmtF := cmtF, cmtN := cmtN, cmtUnknown := cmtUnknown, dirty := dirty, hist := hist,
      now := now, deadline := deadline, csr0 := csr0, csr1 := csr1, rootC := rootC, nocC := nocC, wiped := wiped,
-     cmtX := cx5, xBind := xBind },
+     cmtX := cx5, xBind := xBind, histX := histX },
    v07a ++ v07b ++ v07c ++ v07d ++ vx4 ++ vx3 ++ vx1 ++ vx2 ++ vrt ++ v08g ++ v08c ++ v08r ++ v08e ++ v11w ++ v11r)
 
 /-! ## the driver loop -/
@@ -568,12 +603,17 @@ def step (st : St) (line : String) : St × String :=
       match parseView out with
       | none => (st, "BAD output")
       | some v =>
+        let dropped : List Nat := match ws with
+          | "tick" :: _ :: rest => rest.filterMap (fun w => w.toNat?)
+          | _ => []
         let (node', status) : Node × Status :=
           match st.hmode, op with
           | true, .tick _ =>
-            -- the real poll of the interaction model runs while the time passes
+            -- the real poll of the interaction model runs while the time passes; so does the
+            -- subscription reporter: the sessions it dropped are named after the seconds
             let (n1, _) := Admin.step st.cfg st.node op
-            let (n2, _) := Admin.step st.cfg n1 .poll
+            let n1' := dropped.foldl (fun n sid => (Admin.step st.cfg n (.sdrop sid)).1) n1
+            let (n2, _) := Admin.step st.cfg n1' .poll
             (n2, .ok)
           | _, _ => Admin.step st.cfg st.node op
         let isExt : Bool := match op with
@@ -583,7 +623,7 @@ def step (st : St) (line : String) : St × String :=
           if isExt && status.accepted then v.status
           else if st.hmode && v.status = "rej" then (if status.accepted then status.render else "rej") else status.render
         let modelOut := s!"{statusS} | {node'.dump}"
-        let (ost', viols) := oracle st.ost op v (ws.headD "")
+        let (ost', viols) := oracle st.ost op v (ws.headD "") dropped
         let mine := viols.filter (fun m => m.startsWith st.prop)
         let st' := { st with node := node', ost := ost' }
         match mine with
